@@ -90,11 +90,13 @@ def check_model(net, bounds, P, stats, rich=False):
         # objectives with a negative coefficient (the minimal-flux state may have a negative objective value, so that
         # fraction 0 is a real constraint); outside the rich tier they are run through the pFBA part only
         pfba_only = [o for o in (({ids[0]: 1, ids[-1]: -2}, "max"), ({ids[0]: -1, ids[-1]: 2}, "max")) if o not in objs]
+        # minimising models (fraction 1 only: the property restricts fractions < 1 to optima >= 0 when maximising)
+        pfba_only += [({ids[0]: 1}, "min"), ({ids[-1]: 1, ids[0]: 2}, "min")]
     for obj, direction in objs + pfba_only:
         only_pfba = (obj, direction) in pfba_only
         fba = exactlp.FBA(mets, rxns, obj, direction)
         st, z, _ = fba.optimum()
-        if st != OPT or z < 0:
+        if st != OPT or (z < 0 and direction == "max"):
             continue
         model = families.build_model(mets, rxns)
         model.objective = {model.reactions.get_by_id(r): c for r, c in obj.items()}
@@ -122,7 +124,7 @@ def check_model(net, bounds, P, stats, rich=False):
         lbs0 = np.array([r[2] for r in rxns], dtype=float)
         ubs0 = np.array([r[3] for r in rxns], dtype=float)
         # ---- pFBA ----------------------------------------------------------------------
-        for frac in (1.0, 0.5, 0.0):
+        for frac in ((1.0, 0.5, 0.0) if direction == "max" else (1.0,)):
             for form in (("model",), ("dict",), ("subset",)) if frac == 1.0 else (("model",),):
                 case = mk("pfba", fraction=frac, form=form[0])
                 stT, T, _ = oracles.min_total_flux(fba, frac)
@@ -158,8 +160,10 @@ def check_model(net, bounds, P, stats, rich=False):
                     bad(case, pr, str(v))
                 if abs(np.abs(v).sum() - Tf) > TOL * max(1, Tf):
                     bad(case, "total flux of the returned distribution is not minimal", f"{np.abs(v).sum()} vs {T}; v={v}")
-                if float(c @ v) < frac * float(z) - TOL * max(1, abs(float(z))):
+                if direction == "max" and float(c @ v) < frac * float(z) - TOL * max(1, abs(float(z))):
                     bad(case, "objective below the requested fraction of the optimum", f"{c @ v} vs {frac}*{z}")
+                if direction == "min" and float(c @ v) > frac * float(z) + TOL * max(1, abs(float(z))):
+                    bad(case, "objective beyond the requested fraction of the optimum", f"{c @ v} vs {frac}*{z} (minimising)")
         # ---- pFBA with an explicit solver objective that is not a combination of net fluxes ------------------
         if len(ids) > 1 and not only_pfba:
             out.extend(check_pfba_expression(net, bounds, mets, rxns, ids, obj, model, stats, S, lbs0, ubs0))
